@@ -15,7 +15,7 @@ META = {
     'functions': ['enspara.msm.transition_matrices.trim_disconnected', 'enspara.msm.transition_matrices.TrimMapping '
                   '(__init__, to_original, to_mapped, __eq__)'],
     'bounds': {'quick': 'n<=3 states, symbolic non-negative integer counts, symbolic threshold >= 1, renumber on/off, '
-                        'dense ndarray and COO input', 'thorough': 'n<=4'},
+                        'dense ndarray and COO input', 'thorough': 'n<=5'},
     'stubs': ['scipy.sparse.csgraph.connected_components = symbolic Warshall closure honouring connection=/directed=, classes '
               'numbered by smallest member (scipy numbering unspecified)', 'coo_matrix(dense)/toarray = SymCOO; COO matrices with repeated coordinates (count = sum of stored entries, as assigns_to_counts builds them)'],
     'assumptions': ['threshold >= 1', 'oracle reachability is computed independently of the stub (own closure over the '
@@ -160,7 +160,7 @@ def trim_job(n, renumber=True, form='dense', maxcount=None):
 def jobs(tier):
     J = []
     q = tier == 'quick'
-    for n in ((1, 2, 3) if q else (1, 2, 3, 4)):
+    for n in ((1, 2, 3) if q else (1, 2, 3, 4, 5)):
         for ren in (True, False):
             for form in ('dense', 'coo') + (('coo-dup',) if 2 <= n <= 3 else ()):
                 J.append(dict(module='harness.C11', func='trim_job', name='trim[n=%d,renumber=%s,%s]' % (n, ren, form),
